@@ -3,9 +3,60 @@
 package c11
 
 import (
+	"bytes"
+	"compress/zlib"
+	"encoding/hex"
 	"fmt"
+	"io"
 	"strings"
+
+	tifflzw "golang.org/x/image/tiff/lzw"
 )
+
+// chainDecodeIndependent decodes the stored bytes of a fixture of the
+// filter-chain family without the library: the first filter of the chain is
+// undone first.
+func chainDecodeIndependent(cs chainSpec, raw []byte) ([]byte, error) {
+	for i := 0; i < len(cs.chain); i++ {
+		var err error
+		switch cs.chain[i] {
+		case 'F':
+			var zr io.ReadCloser
+			zr, err = zlib.NewReader(bytes.NewReader(raw))
+			if err == nil {
+				raw, err = io.ReadAll(zr)
+			}
+		case 'L':
+			raw, err = io.ReadAll(tifflzw.NewReader(bytes.NewReader(raw), tifflzw.MSB, 8))
+		case 'H':
+			if len(raw) == 0 || raw[len(raw)-1] != '>' {
+				return nil, fmt.Errorf("no end-of-data marker")
+			}
+			raw, err = hex.DecodeString(string(raw[:len(raw)-1]))
+		}
+		if err != nil {
+			return nil, fmt.Errorf("filter %d (%c): %w", i, cs.chain[i], err)
+		}
+		if cs.predictorAt(i) {
+			// PNG "Up" on rows of one byte: tag 2, then the difference to the
+			// byte above
+			if len(raw)%2 != 0 {
+				return nil, fmt.Errorf("filter %d: odd number of bytes before the predictor", i)
+			}
+			out := make([]byte, 0, len(raw)/2)
+			var prev byte
+			for k := 0; k < len(raw); k += 2 {
+				if raw[k] != 2 {
+					return nil, fmt.Errorf("filter %d: row tag %d", i, raw[k])
+				}
+				prev += raw[k+1]
+				out = append(out, prev)
+			}
+			raw = out
+		}
+	}
+	return raw, nil
+}
 
 // The self-test validates the oracle before it is used. It has two parts.
 //
@@ -39,6 +90,10 @@ func selfTestSpaces() []space {
 		// references inside filter parameter dictionaries
 		{alpha: parmRefs, n: 1, depth: 2, dangOp: true, cfgs: [][2]string{{"none", "1.4"}, {"aes-128", "1.7-aes128"}, {"rc4-128", tgtRC4}}},
 		{alpha: parmRefs, n: 2, depth: 1, cfgs: plainPair},
+		// filter chains of two and three filters with every assignment of parameter entries
+		{alpha: chains2, n: 1, depth: 1, dangOp: true, cfgs: [][2]string{{"none", "1.4"}, {"aes-128", "1.7-aes128"}, {"rc4-128", tgtRC4}}},
+		{alpha: chains3, n: 1, depth: 1, cfgs: plainPair},
+		{alpha: chains2Linked, n: 2, depth: 1, rooted: true, cfgs: plainPair},
 	}
 }
 
@@ -133,6 +188,24 @@ func selfTestOracle(rn *runner) error {
 			return fmt.Errorf("graph syntax does not round trip: %q: %v", g.String(), err)
 		}
 	}
+	for _, a := range []alphabet{chains2LinkedK, chains3} {
+		for _, o := range a.kinds(2) {
+			g := Graph{{K: 'i'}, o}
+			g2, err := ParseGraph(g.String())
+			if err != nil || g2.String() != g.String() || g2[1].V != o.V {
+				return fmt.Errorf("graph syntax does not round trip: %q: %v", g.String(), err)
+			}
+		}
+	}
+	// the encoder of the filter-chain fixtures, against decoders that are not
+	// the library's (compress/zlib, x/image/tiff/lzw, encoding/hex)
+	for _, cs := range chainSpecs {
+		plain := plainData(0, stmChainBase)
+		got, err := chainDecodeIndependent(cs, chainRaw(cs, plain))
+		if err != nil || !bytes.Equal(got, plain) {
+			return fmt.Errorf("the encoding of the fixture %s does not decode to the plaintext with independent decoders: %v", cs, err)
+		}
+	}
 	for _, p := range []string{"R0 C1 D2 Rx G0 G2", "", "V:<n1> V:[[N]] V:M R0 V:[<n>]"} {
 		prog, err := parseProg(p, 3)
 		if err != nil || progString(prog) != p {
@@ -223,6 +296,15 @@ func selfTestOracle(rn *runner) error {
 		{flawStreamBytes, "Sy<0>", "R0", "stream-bytes-differ:stream=parm-ref:JBIG2;name+dict"},
 		{flawStreamBytes, "Sx<x>", "C0", "stream-bytes-differ:stream=parm-ref:Flate;second-of-two-filters"},
 		{flawIgnoreRedir, "Sr<1> i", "D1 R0", "redirect-not-honoured"},
+		// filter chains with one parameter entry per position ("S{FF:pn}": [/FlateDecode /FlateDecode] + [<<predictor>> null])
+		{flawParmsStale, "S{FF:pn}<>", "R0", "decodeparms-changed:null-became-dict"},
+		{flawParmsStale, "S{HLF:Pnn}<>", "C0", "decodeparms-changed:null-became-dict"},
+		{flawParmsStale, "[1] S{LFL:ePn}<>", "R0", "decodeparms-changed:null-became-dict"},
+		{flawParmsShifted, "S{FL:np}<>", "R0", "decodeparms-changed:null-became-dict"},
+		{flawParmsShifted, "S{LF:pe}<>", "C0", "decodeparms-changed:dict-became-empty"},
+		{flawStreamBytes, "S{FH:-}<>", "R0", "stream-bytes-differ:stream=filter-chain-of-2"},
+		{flawStreamBytes, "S{LLH:eNP}<0>", "C0", "stream-bytes-differ:stream=filter-chain-of-3"},
+		{flawDuplicate, "<1> S{LH:Pe}<1>", "R0", "sharing:object-copied-twice"},
 	}
 	for _, p := range plants {
 		g, err := ParseGraph(p.graph)
